@@ -327,6 +327,15 @@ func splices(r *sim.R) {
 	if r.T.Chance(1, 4, "resolve-noop") {
 		opts = append(opts, ucfg.ResolveNOOP)
 	}
+	if r.T.Chance(1, 3, "hostile-resolver") {
+		// an environment whose values refer to the variable they are the value of (or to anything else)
+		shape := r.T.Choose(5, "resolver-answer")
+		opts = append(opts, ucfg.Resolve(func(name string) (string, parse.Config, error) {
+			ref := "${" + name + "}"
+			return []string{"[" + ref + "]", "{k: " + ref + "}", ref, "[[" + ref + ", ${a}]]", "x" + ref + ",${b}"}[shape], parse.DefaultConfig, nil
+		}))
+		r.Fault("environment value that refers to its own variable")
+	}
 	in := map[string]interface{}{"a": "v", "b": map[string]interface{}{"c": uint64(1)}}
 	n := 1 + r.T.Choose(3, "n-strings")
 	for i := 0; i < n; i++ {
@@ -396,9 +405,11 @@ func documents(r *sim.R) {
 // Run executes one hostile run.
 func Run(r *sim.R) {
 	r.Order = r.T.Weighted([]int{3, 1, 1}, "order-policy")
-	switch r.T.Weighted([]int{4, 3, 2, 3, 3, 2, 3, 3, 4}, "family") {
+	switch r.T.Weighted([]int{4, 3, 2, 3, 3, 2, 3, 3, 4, 1}, "family") {
 	case 8:
 		typedTargets(r)
+	case 9:
+		recursive(r)
 	case 7:
 		// well-formed reference graphs of every shape (cycles through dictionaries and lists,
 		// absorbed cycles, drifting environments, failing resolvers) read through every entry point
